@@ -21,7 +21,10 @@ Er(k, n, lo, hi) == [k |-> k, n |-> n, lo |-> lo, hi |-> hi]
 ErrorItems == {Er("hash_error", 1, 0, 0), Er("unknown_dir", 1, 0, 0), Er("unterminated", 1, 0, 0), Er("endif", 1, 0, 0), Er("noinclude", 1, 0, 0),
                Er("pest", 1, 0, 0), Er("pest_spliced", 2, 0, 1), Er("unknown_id", 3, 1, 1), Er("dupvar", 2, 1, 1), Er("break_outside", 3, 1, 1),
                Er("unknown_func", 3, 1, 1), Er("too_many_args", 4, 2, 2), Er("subscript_scalar", 4, 2, 2), Er("bad_init", 1, 0, 0),
-               Er("continue_outside", 3, 1, 1), Er("wrong_return", 3, 1, 1)}
+               Er("continue_outside", 3, 1, 1), Er("wrong_return", 3, 1, 1),
+               \* the same with the offending token in column 1 of its line
+               Er("unknown_id0", 3, 1, 1), Er("unknown_func0", 3, 1, 1), Er("break_outside0", 3, 1, 1), Er("subscript_scalar0", 4, 2, 2),
+               Er("too_many_args0", 4, 2, 2), Er("wrong_return0", 3, 1, 1), Er("pest0", 2, 1, 1)}
 
 RECURSIVE Sum(_, _)
 Sum(s, i) == IF i > Len(s) THEN 0 ELSE s[i].n + Sum(s, i + 1)
